@@ -268,7 +268,12 @@ def gotran_to_myokit(ode: ODE, time_component="engine", time_unit="s") -> myokit
         return unit.replace("**", "^")
 
     # First we need to add all variables to the model
-    global_var_map = {sp.Symbol("time"): sp.Symbol(f"{time_component}.time")}
+    # Note that the expressions of an ODE loaded from an .ode file contain the symbols
+    # of the atoms (with assumptions), while an ODE imported from myokit contains plain symbols
+    global_var_map = {
+        sp.Symbol("time"): sp.Symbol(f"{time_component}.time"),
+        ode.t: sp.Symbol(f"{time_component}.time"),
+    }
     for component in ode.components:
         if component.name == time_component:
             comp = model[time_component]
@@ -280,17 +285,20 @@ def gotran_to_myokit(ode: ODE, time_component="engine", time_unit="s") -> myokit
             var = comp.add_variable(state.name)
             var.set_unit(to_myokit_unit(state.unit_str))
             global_var_map[sp.Symbol(state.name)] = sp.Symbol(var.qname())
+            global_var_map[state.symbol] = sp.Symbol(var.qname())
 
         for parameter in component.parameters:
             var = comp.add_variable(parameter.name)
             var.set_unit(to_myokit_unit(parameter.unit_str))
             var.set_rhs(parameter.value)
             global_var_map[sp.Symbol(parameter.name)] = sp.Symbol(var.qname())
+            global_var_map[parameter.symbol] = sp.Symbol(var.qname())
 
         for intermediate in component.intermediates:
             var = comp.add_variable(intermediate.name)
             var.set_unit(to_myokit_unit(intermediate.unit_str))
             global_var_map[sp.Symbol(intermediate.name)] = sp.Symbol(var.qname())
+            global_var_map[intermediate.symbol] = sp.Symbol(var.qname())
 
     sympy_reader = myokit.formats.sympy.SymPyExpressionReader(model=model)
     # Then we can add expressions
